@@ -1,13 +1,22 @@
 #!/bin/bash
-# tools/seeded_regress.sh [budget_s] : every kept seeded change against the check of its property, one after
-# the other (applies each patch to /repo's working tree and reverts it). One line per change.
-B=${1:-35}
+# tools/seeded_regress.sh [budget_s] [name-glob] : every kept seeded change against the check of its property, one
+# after the other, each applied to a private clone of /repo's HEAD (so /repo's working tree is never touched and
+# other work can go on beside it). One line per change.
+B=${1:-35}; G=${2:-*}
 cd /verif
-for d in seeded/*/; do
+SNAP=$(mktemp -d /dev/shm/regress-repo.XXXXXX)
+git clone -q /repo $SNAP || exit 2
+EV=$(mktemp -d /dev/shm/regress-ev.XXXXXX)
+for d in seeded/$G/; do
   n=$(basename $d)
   prop=$(python3 -c "import json; print(json.load(open('$d/meta.json'))['property'])")
-  out=$(tools/try_mutant.sh /verif/$d/patch.diff $prop $B 2>&1)
-  rc=$(echo "$out" | grep -a -m1 '^rc=' | cut -d= -f2)
+  git -C $SNAP checkout -q -- . ; git -C $SNAP clean -qfd
+  if ! git -C $SNAP apply /verif/$d/patch.diff; then echo "$n prop=$prop rc=patch-does-not-apply"; continue; fi
+  BIN=/verif/bin/verifsim.regress.$$
+  if ! VERIF_REPO=$SNAP ./build.sh $BIN >/dev/null 2>$EV/build.log; then echo "$n prop=$prop rc=build-failed"; continue; fi
+  out=$(VERIF_EVIDENCE_DIR=$EV VERIF_BUDGET_S=$B $BIN drive $prop --tier quick 2>&1); rc=$?
   kinds=$(echo "$out" | grep -a '^  kind=' | sed 's/^  kind=\([a-z0-9()-]*\).*/\1/' | sort -u | tr '\n' ' ')
   echo "$n prop=$prop rc=$rc kinds=[$kinds]"
+  rm -f $BIN $BIN.stats.json
 done
+rm -rf $SNAP $EV
